@@ -19,7 +19,7 @@ from mc import core, pd
 
 ID = 'C08'
 LEVEL = 'fault_enumeration'
-RULE = ('(1) every token string <= N over a 46-token markup alphabet, joined without separator, x docformat x process-types x object kind, '
+RULE = ('(1) every token string <= N over a 64-token markup alphabet, joined without separator, x docformat x process-types x object kind, '
         'rendered through format_docstring / format_summary / format_toc on a real System; (2) every (injection site x exception type x docformat x '
         'process-types) fault; a case is non-trivial when the parser or a renderer gave up, reported an error, or a fault was actually reached; '
         'distinct_nontrivial counts distinct (docformat, docstring) with an error/give-up outcome plus distinct reached (site, exception, format) faults')
@@ -29,7 +29,7 @@ ASSUMPTIONS = [
     'which inputs count as errors, the wording of messages and the content of summaries are not judged',
 ]
 FLOOR = {'quick': 2000, 'thorough': 10000}
-SPACE = {'quick': 'token strings <= 3 over the 19 most interaction-prone tokens x 5 formats x 2 rendering orders (function); <= 2 over all 46 tokens x summary-first order; <= 2 over all 46 tokens x 5 formats x {off,on} x 5 object kinds; faults: 35 sites x 5 exceptions x 5 formats x {off,on}',
+SPACE = {'quick': 'token strings <= 3 over the 19 most interaction-prone tokens x 5 formats x 2 rendering orders (function); <= 2 over all 64 tokens x summary-first order; <= 2 over all 64 tokens x 5 formats x {off,on} x 5 object kinds; faults: 35 sites x 5 exceptions x 5 formats x {off,on}',
          'thorough': 'quick + token strings <= 3 over all 46 tokens x 5 formats, also with process-types on (epytext, reST); <= 4 over the 16-token subset'}
 JOB_TIMEOUT = 2300
 CAP = {'quick': 900.0, 'thorough': 3600.0}
@@ -42,6 +42,10 @@ T = ['w', '\n\n', '\n  ', '\n    ', 'L{', '}', 'B{', 'C{', 'U{', 'E{', '@param a
      '*', '|', '_', '<a&"', 'Args:', 'Returns\n-------', '.. note::', '.. code::', '\x00', '\x0b', '\udc80', '\uffff', '\\', '=====', '\xa0', '\r', '@ivar v:',
      # problems docutils only mentions at INFO level and recovers from
      'Ti\n==\n\n', '3. w\n\n', '.. _tgt: http://x/\n\n', 'w::\n    lit\n\n']
+# long lines: an opener followed by many words and never its closer (what a pattern with nested repetition chokes on)
+_WORDS = ' '.join(['decorated', 'methods', 'are', 'rendered', 'like', 'attributes', 'in', 'the', 'output'] * 5)
+T += ['@property ' + _WORDS, ':param ' + _WORDS, 'L{' + _WORDS, '`' + _WORDS, '``' + _WORDS, '*' + _WORDS, 'U{' + _WORDS + '<', '@param a ' + _WORDS, '- ' + _WORDS * 4, '>>> ' + _WORDS * 4,
+      '.. note:: ' + _WORDS, _WORDS.replace(' ', '_') * 3, ' ' * 300 + 'w', '@' + 'w' * 300, 'w' + ' \t' * 150 + 'w', '|' + _WORDS, '_' * 200, '`' * 41]
 T16 = ['w', '\n\n', '\n  ', 'L{', '}', 'C{', '@param a:', ':param a:', '- ', '::', '>>> ', '`', '``', '*', '.. note::', '=====', '@foo ', '\xa0', 'Title\n=====\n\n', INDENTED_FIELD]
 FMTS = ['epytext', 'restructuredtext', 'google', 'numpy', 'plaintext']
 KINDS = ['module', 'class', 'function', 'attribute', 'property', 'inherited']
@@ -148,6 +152,9 @@ CASE_TIMEOUT = 30
 
 
 def judge_doc(s: Any, fmt: str, pt: bool, kind: str, doc: str, control: str, res: Dict[str, Any], order: str = 'body-first') -> None:
+    if res['extra'].get('hangs', 0) >= 3:
+        core.bump(res, 'cases_skipped_after_three_hangs_in_this_job')      # three hangs are reported; the rest of the job would only wait
+        return
     obj = s.allobjects[OBJ[kind]]
     sib = s.allobjects['m.g']
     case = {'kind': 'doc', 'fmt': fmt, 'pt': pt, 'okind': kind, 'doc': doc, 'order': order}
@@ -166,6 +173,7 @@ def judge_doc(s: Any, fmt: str, pt: bool, kind: str, doc: str, control: str, res
             hb, tb, hs, ht = render_all(shown, order)
     except core.JobTimeout:
         res['violations'].append(core.violation(f'hang/{fmt}', f'rendering {doc!r} as {fmt} on a {kind} does not terminate within the time limit', case))
+        core.bump(res, 'hangs')
         return
     except BaseException as e:  # noqa
         res['violations'].append(core.violation(f'raises/{type(e).__name__}@{pd.exc_site(e)}/{fmt}',
